@@ -33,7 +33,10 @@ ASSUMPTIONS = [
 RULE = ("sequences of 1-5 write_xpak calls on one file: initial content = random bytes (empty, <16 bytes, fake trailers with too large/small offsets, "
         "a prefix that itself ends in a valid segment); mappings of 0-8 distinct ASCII keys (realistic names, environment*/repo/REPO, empty, spaces, NUL) "
         "with unicode text values (ASCII..astral, NUL, newlines, 0-300 chars, occasionally ~70 KB) and binary values under environment* keys, "
-        "payload alternately growing and shrinking; plus single-edit mutations of written files fed to the reader/writer. "
+        "payload alternately growing and shrinking; half of the sequences edit what the file already holds (planted segment or previous write): "
+        "identical rewrite, same content in another key order (reverse, sorted, shuffle, rotate, swap), one value changed (also same length), values "
+        "exchanged between keys, key dropped/added/renamed; plus single-edit mutations of written files fed to the reader/writer, rewritten with a fixed "
+        "mapping or with their own content in reversed order and read back. "
         "non-trivial = a write onto non-empty old content with a non-empty mapping")
 
 REAL_KEYS = ["CATEGORY", "PF", "SLOT", "USE", "DESCRIPTION", "DEPEND", "RDEPEND", "KEYWORDS", "CHOST", "CBUILD", "BUILD_TIME", "SIZE",
@@ -117,6 +120,66 @@ def gen_map(rng, size=None, allow_offdomain=True):
     return out
 
 
+def derive_map(rng, prev):
+    """the next mapping of a rewrite sequence as an edit of the one the file already holds (metadata updates are edits, not fresh
+    mappings): identical, reordered, one value changed (same or different length), values exchanged, key dropped/added/renamed"""
+    m = list(prev)
+    k = rng.choice(["same", "reverse", "sorted", "shuffle", "rotate", "swap-two", "shuffle+value", "value", "value-same-length",
+                    "exchange-values", "drop", "add", "rename", "move-last-first"])
+    if len(m) < 2 and k in ("reverse", "sorted", "shuffle", "rotate", "swap-two", "exchange-values", "move-last-first"):
+        k = "add"
+    if not m and k not in ("same", "add"):
+        k = "add"
+
+    def new_value(key, old=None, same_len=False):
+        if key.startswith("environment") and (old is None or old[0] == "b"):
+            v = gen_bytes(rng)
+            if same_len and old is not None:
+                v = bytes((x + 1) % 256 for x in old[1])
+            return ("b", v)
+        if same_len and old is not None and old[0] == "t":
+            return ("t", "".join(("y" if c == "x" else "x") if ord(c) < 128 else c for c in old[1]))
+        return ("t", gen_text(rng))
+    if k == "reverse":
+        m.reverse()
+    elif k == "sorted":
+        m.sort(key=lambda e: e[0])
+        if m == list(prev):
+            m.reverse()
+    elif k in ("shuffle", "shuffle+value"):
+        rng.shuffle(m)
+    elif k == "rotate":
+        m = m[1:] + m[:1]
+    elif k == "move-last-first":
+        m = m[-1:] + m[:-1]
+    elif k == "swap-two":
+        i, j = rng.sample(range(len(m)), 2)
+        m[i], m[j] = m[j], m[i]
+    elif k == "exchange-values":
+        cand = [(i, j) for i in range(len(m)) for j in range(i + 1, len(m)) if m[i][1] == m[j][1] and
+                (m[i][1] == "t" or (m[i][0].startswith("environment") and m[j][0].startswith("environment")))]
+        if cand:
+            i, j = rng.choice(cand)
+            m[i], m[j] = (m[i][0],) + m[j][1:], (m[j][0],) + m[i][1:]
+    elif k == "drop":
+        del m[rng.randrange(len(m))]
+    elif k == "rename":
+        i = rng.randrange(len(m))
+        key = gen_key(rng)
+        if key not in {e[0] for e in m} and (m[i][1] == "t" or key.startswith("environment")):
+            m[i] = (key,) + m[i][1:]
+    if k in ("value", "value-same-length", "shuffle+value") and m:
+        i = rng.randrange(len(m))
+        m[i] = (m[i][0],) + new_value(m[i][0], m[i][1:], same_len=(k == "value-same-length"))
+    if k == "add":
+        for _ in range(20):
+            key = gen_key(rng)
+            if key not in {e[0] for e in m}:
+                m.insert(rng.randrange(len(m) + 1), (key,) + new_value(key))
+                break
+    return m, k
+
+
 def u32(n):
     return struct.pack(">L", n)
 
@@ -139,8 +202,13 @@ def gen_prefix(rng):
     if k < 0.8:
         return body[:-4] + rng.choice([b"STOP", b"XPAK", b"PACK"]), "magic-fragment"
     if k < 0.93:
-        return body + py_segment(gen_map(rng, allow_offdomain=False)), "has-segment:%d" % len(body)
+        planted = gen_map(rng, allow_offdomain=False)
+        PLANTED[0] = planted
+        return body + py_segment(planted), "has-segment:%d" % len(body)
     return body, "random"
+
+
+PLANTED = [None]          # the mapping of the segment planted by the last gen_prefix call (None: none planted)
 
 
 def py_segment(m):
@@ -195,6 +263,13 @@ CORPUS = [
     (b"tar", [[("SLOT", "b", b"0")]]),                                     # bytes that decode: read back as text
     (b"tar", [[("k", "t", "v" * 70000)], [("k", "t", "v")]]),               # lengths beyond one and two bytes, then shrink
     (b"tar", [[("key%03d" % i, "t", "value %d" % i) for i in range(300)], [("only", "t", "one")]]),
+    # "the same keys, in order" across rewrites: same content listed in another order, twice the same, values exchanged between keys
+    (b"\x1f\x8btarball" * 9, [[("CATEGORY", "t", "dev-util\n"), ("DESCRIPTION", "t", "grüße ☃\n"), ("environment.bz2", "b", b"BZh9\x00\xff\xfe"), ("SLOT", "t", "0\n")],
+                             [("CATEGORY", "t", "dev-util\n"), ("DESCRIPTION", "t", "grüße ☃\n"), ("SLOT", "t", "0\n"), ("environment.bz2", "b", b"BZh9\x00\xff\xfe")],
+                             [("CATEGORY", "t", "dev-util\n"), ("DESCRIPTION", "t", "grüße ☃\n"), ("SLOT", "t", "0\n"), ("environment.bz2", "b", b"BZh9\x00\xff\xfe")],
+                             [("SLOT", "t", "0\n"), ("environment.bz2", "b", b"BZh9\x00\xff\xfe"), ("DESCRIPTION", "t", "grüße ☃\n"), ("CATEGORY", "t", "dev-util\n")],
+                             [("SLOT", "t", "dev-util\n"), ("environment.bz2", "b", b"BZh9\x00\xff\xfe"), ("DESCRIPTION", "t", "grüße ☃\n"), ("CATEGORY", "t", "0\n")]]),
+    (b"", [[("a", "t", "1"), ("b", "t", "1")], [("b", "t", "1"), ("a", "t", "1")], [("a", "t", "1"), ("b", "t", "1")]]),
     (b"q" * 40 + b"XPAKSTOP" + u32(16) + b"STOP", [[("a", "t", "b")]]),   # trailer only, no header
     (b"q" * 40 + b"XPAKSTOP" + u32(4000) + b"STOP", [[("a", "t", "b")]]),  # offset points before the start of the file
     (b"XPAKPACK" + u32(0) + u32(0) + b"XPAKSTOP" + u32(24) + b"STOP", [[("a", "t", "b")], []]),   # file is exactly an empty segment
@@ -232,21 +307,31 @@ def run(ctx):
                 if "initial" in c and "maps" in c:
                     seqs.insert(0, (bytes.fromhex(c["initial"]),
                                     [[(k, kind, v if kind == "t" else bytes.fromhex(v)) for k, kind, v in m] for m in c["maps"]], "replay"))
+        derived_how = []
         for _ in range(ctx.n(700, 14000)):
+            PLANTED[0] = None
             pre, kind = gen_prefix(rng)
             steps = rng.choice([1, 1, 2, 3, 3, 5])
             ms = []
+            related = rng.random() < 0.5               # this sequence edits what the file holds instead of writing unrelated mappings
             for i in range(steps):
                 big = rng.random() < 0.004
-                m = gen_map(rng)
+                held = ms[-1] if ms else PLANTED[0]     # what the segment in the file holds when this write starts
+                if related and held is not None and rng.random() < 0.8:
+                    m, how = derive_map(rng, held)
+                    derived_how.append(how)
+                else:
+                    m = gen_map(rng)
                 if big and m:
                     m[0] = (m[0][0], "t", gen_text(rng, big=True))
                 ms.append(m)
-            if steps >= 3 and rng.random() < 0.5:      # force grow / shrink / grow
+            if not related and steps >= 3 and rng.random() < 0.5:      # force grow / shrink / grow
                 ms[0] = gen_map(rng, size=1)
                 ms[1] = gen_map(rng, size=8)
                 ms[2] = gen_map(rng, size=rng.choice([0, 1]))
             seqs.append((pre, ms, kind))
+        for how in derived_how:
+            ctx.count("derived_" + how)
         if not ctx.quick():
             # bounded-exhaustive: every ordered selection of up to 3 entries from a small universe, on 3 kinds of old content
             uni = [("a", "t", ""), ("a", "t", "é"), ("environment", "b", b"\xff"), ("environment", "t", "x"), ("repo", "t", "r"),
@@ -260,6 +345,15 @@ def run(ctx):
                     for old in olds:
                         seqs.append((old, [list(sel)], "exhaustive"))
                         nex += 1
+            # ... and every reordering of such a selection written right after it (same content, other key order)
+            for r in (2, 3):
+                for sel in itertools.permutations(uni, r):
+                    if len({k for k, _, _ in sel}) != len(sel):
+                        continue
+                    for perm in itertools.permutations(sel):
+                        if perm != sel:
+                            seqs.append((olds[1], [list(sel), list(perm)], "exhaustive"))
+                            nex += 2
             ctx.extra["exhaustive_small_universe_writes"] = nex
 
         # ---------------- run the real code, collect the model requests
@@ -320,15 +414,26 @@ def run(ctx):
             except Exception as e:
                 got, rerr = None, classify(e)
             m = [("n", "t", "new")]
+            if got and rng.random() < 0.5:
+                # rewrite what the (damaged but readable) file holds: same content, reversed order / as it is
+                own = [(k, v[0], v[1] if v[0] == "t" else bytes.fromhex(v[1])) for k, v in got]
+                if in_domain(own):
+                    m = own[::-1] if rng.random() < 0.7 else own
             try:
                 Xpak.write_xpak(path, as_dict(m)); werr = None
             except Exception as e:
                 werr = classify(e)
             with open(path, "rb") as f:
                 after = f.read()
+            back = None
+            if werr is None:
+                try:
+                    back = canon_items(list(Xpak(path).items()))
+                except Exception as e:
+                    back = classify(e)
             mreqs.append({"cmd": "c26.items", "file": b.hex()})
             mreqs.append({"cmd": "c26.write", "file": b.hex(), "map": to_req_map(m)})
-            mmeta.append((b, got, rerr, werr, after))
+            mmeta.append((b, got, rerr, werr, after, m, back))
 
         replies = ctx.model(reqs + mreqs)
         main, mut = replies[: len(reqs)], replies[len(reqs):]
@@ -411,10 +516,15 @@ def run(ctx):
                                   finding="C26-repo-key-rewritten")
                 else:
                     ctx.violation(case, f"read back {str(got)[:300]}, expected {str(exp)[:300]}")
-        for i, (b, got, rerr, werr, after) in enumerate(mmeta):
+        for i, (b, got, rerr, werr, after, m, back) in enumerate(mmeta):
             irep, wrep = mut[2 * i], mut[2 * i + 1]
-            case = {"mutated_file": b.hex()}
+            case = {"mutated_file": b.hex(), "map": to_req_map(m)}
             ctx.case(case, False)
+            ctx.count("mutated_rewrite_" + ("fixed_map" if m == [("n", "t", "new")] else "own_content"))
+            # the property on the real code: a write that returned normally reads back as the mapping written (whatever was there before)
+            if werr is None and in_domain(m) and not any(k in rewrites for k, _, _ in m) and back != expected_py(m):
+                ctx.violation(case, f"write_xpak over a damaged file returned normally but reading back gives {str(back)[:300]}, "
+                              f"expected {str(expected_py(m))[:300]}")
             ctx.count("mutated_read_" + (rerr or "ok"))
             if rerr is not None:
                 if irep.get("err") != rerr:
